@@ -450,13 +450,15 @@ pub fn one_case(d: &mut Draw, fast: &[Config], cc: &[Config]) -> Outcome {
     let mut cfg = GenCfg::default();
     cfg.display = d.chance(1, 4);
     cfg.unguarded_per_mille = 20;
-    for k in findings::NON_DEFAULT {
-        cfg.avoid.insert(k.to_string());
+    if crate::c18::BIG_TIER {
+        for k in findings::NON_DEFAULT {
+            cfg.avoid.insert(k.to_string());
+        }
     }
     let g = gen_design(d, &cfg);
     let cycles = 8 + d.below(8) as usize;
     let stim = gen_stimulus(d, &g.design, cycles);
-    let use_cc = !cc.is_empty() && d.chance(1, 3);
+    let use_cc = !cc.is_empty() && d.chance(1, if crate::c18::BIG_TIER { 3 } else { 5 });
     if std::env::var("C02_DUMP").is_ok() {
         println!("{}// stimulus: {}", print_design(&g.design), stim_json(&stim));
     }
@@ -743,7 +745,7 @@ pub fn run(ctx: &Ctx) {
                 .unwrap_or_else(|_| Outcome::fail("panic:recorded", "the replay panicked", p.clone()))
         })
     });
-    let n = std::env::var("C02_CASES").ok().and_then(|s| s.parse::<usize>().ok()).unwrap_or(ctx.scale(960, 30_000));
+    let n = std::env::var("C02_CASES").ok().and_then(|s| s.parse::<usize>().ok()).unwrap_or(ctx.scale(if crate::c18::BIG_TIER { 960 } else { 320 }, 30_000));
     let mut cc_cfg = CaseCfg::cases(n).choices(8000);
     if std::env::var("VDESIGN_MINIMIZE").is_ok() {
         cc_cfg = cc_cfg.shrink_iters(0).timeout_s(3000);
@@ -753,6 +755,6 @@ pub fn run(ctx: &Ctx) {
     ctx.assume("the reference evaluator (vdesign::eval) is used for the failure report and the root-cause signature only, not for the verdict");
     ctx.finish(
         "exploration",
-        "generated designs (children with parameter overrides, let/assign/always_comb with if/case/switch/for, always_ff with reset, functions, structs, arrays, widths 1..300, signed values, $display on 1/4) x stimulus of 8-15 cycles after a reset window, under every Config::all() engine (cc on 1/3); non-trivial = compiled by the JIT (jit_stats > 0) and some output changes over the trace; distinct by text + stimulus",
+        "generated designs (children with parameter overrides, let/assign/always_comb with if/case/switch/for, always_ff with reset, functions, structs, arrays, widths 1..300, signed values, $display on 1/4) x stimulus of 8-15 cycles after a reset window, under every Config::all() engine (cc on 1/5); non-trivial = compiled by the JIT (jit_stats > 0) and some output changes over the trace; distinct by text + stimulus",
     );
 }
